@@ -234,9 +234,9 @@ def unfollowed(t):
     return sorted({x[1][2] for x in subterms(t) if is_tag(x, "call") and is_tag(x[1], "fn")})
 
 
-def soft(t):
-    """is there something in t that stands for how the evaluator represents the program rather than for a computation"""
-    return any(is_tag(x, *SOFT_TAGS) for x in subterms(t))
+def soft_terms(t):
+    """the subterms of t that stand for how the evaluator represents the program rather than for a computation"""
+    return {x for x in subterms(t) if is_tag(x, *SOFT_TAGS)}
 
 
 def diff_pairs(a, b, out, depth=0):
